@@ -174,4 +174,48 @@ theorem respond_fits_spec (m : MethodInfo) (pi : Nat) (rs : List (Responder ρ))
   | unmock => simp [variantOf, specDispatch, fitsDisp]
   | panic msg => simp [variantOf, specDispatch, fitsDisp]
 
+/-! ### assembly: `Sink::push` -/
+
+/-- what `push` observes of the assembler and the incoming terminal clause -/
+def pushObs (a : Asm α ρ) (t : Terminal α ρ) : PObs where
+  outputError := t.b.outputError
+  exists_ := ((newPattern a t.b).1.mockers.find? (·.info.id = t.info.id)).isSome
+  modeDiffers := match (newPattern a t.b).1.mockers.find? (·.info.id = t.info.id) with
+    | some fm => decide (fm.mode ≠ t.b.mode)
+    | none => false
+
+/-- the model's `Asm.push` yields the result class the observation-level specification names; on an output error
+    `new_call_pattern` has not run -/
+theorem push_eq_spec (a : Asm α ρ) (t : Terminal α ρ) :
+    match (specPush (pushObs a t)).1 with
+    | .errOutput => a.push t = .error .outputError
+    | .errMode => ∃ fm, (newPattern a t.b).1.mockers.find? (·.info.id = t.info.id) = some fm ∧
+        a.push t = .error (.modeConflict fm.info fm.mode t.b.mode)
+    | .appended => ∃ a', a.push t = .ok a' ∧ a'.cur = (newPattern a t.b).1.cur ∧ a'.mockers.length = a.mockers.length
+    | .inserted => ∃ a', a.push t = .ok a' ∧ a'.cur = (newPattern a t.b).1.cur ∧ a'.mockers.length = a.mockers.length + 1
+    | .fellThrough => False := by
+  have hnm : (newPattern a t.b).1.mockers = a.mockers := by unfold newPattern; split <;> rfl
+  unfold specPush pushObs
+  cases ho : t.b.outputError
+  case true => simp [Asm.push, ho]
+  simp only [Bool.false_eq_true, ↓reduceIte]
+  cases hf : (newPattern a t.b).1.mockers.find? (·.info.id = t.info.id) with
+  | none =>
+    simp only [Option.isSome_none, Bool.false_eq_true, ↓reduceIte]
+    have hp : a.push t = .ok { (newPattern a t.b).1 with
+        mockers := (newPattern a t.b).1.mockers ++ [⟨t.info, t.b.mode, [(newPattern a t.b).2]⟩] } := by
+      simp [Asm.push, ho, hf]
+    exact ⟨_, hp, rfl, by simp [hnm]⟩
+  | some fm =>
+    simp only [Option.isSome_some, ↓reduceIte]
+    by_cases hm : fm.mode = t.b.mode
+    · simp only [hm, ne_eq, not_true_eq_false, decide_false, Bool.false_eq_true, ↓reduceIte]
+      have hp : a.push t = .ok { (newPattern a t.b).1 with
+          mockers := (newPattern a t.b).1.mockers.map fun m =>
+            if m.info.id = t.info.id then { m with pats := m.pats ++ [(newPattern a t.b).2] } else m } := by
+        simp [Asm.push, ho, hf, hm]
+      exact ⟨_, hp, rfl, by simp [hnm]⟩
+    · simp only [ne_eq, hm, not_false_eq_true, decide_true, ↓reduceIte]
+      exact ⟨fm, rfl, by simp [Asm.push, ho, hf, hm]⟩
+
 end Unimock
